@@ -287,4 +287,31 @@ def rule_support(ctx):
                "and is answered 425 (or waits forever) although the connection was made within wait_future_timeout", construct="support:Connection.__setattr__")
 
 
-RULES = [rule_label, rule_wire, rule_wait, rule_end, rule_cleanup, rule_support]
+def rule_pathio_timeout(ctx):
+    p = ctx.p
+    ctx.rule("C16.PATHIO", "every operation of the executor backend is bounded by path_timeout: @with_timeout sits on each AsyncPathIO coroutine (and on its lister's __anext__), "
+                           "inside the error converter and outside the executor hand-off")
+    ms = p.methods("AsyncPathIO")
+    ops = [n.name for n in p.cls("AbstractPathIO").body if isinstance(n, ast.AsyncFunctionDef)]
+    n = 0
+    targets = [(op, ms[op]) for op in ops if op in ms]
+    if "list" in ms:
+        try:
+            targets.append(("list.__anext__", p.nested(ms["list"], "__anext__")))
+        except AnalysisError:
+            pass
+    for op, fn in targets:
+        n += 1
+        names = [d.name for d in p.decorators(fn)]
+        has = "with_timeout" in names
+        order_ok = has and ("_blocking_io" not in names or names.index("with_timeout") < names.index("_blocking_io")) and \
+            ("universal_exception" not in names or names.index("universal_exception") < names.index("with_timeout"))
+        ctx.ob("C16.PATHIO", fn, f"AsyncPathIO.{op}: decorators {names}", has and order_ok,
+               f"AsyncPathIO.{op} is not wrapped by @with_timeout (decorators {names}): a hanging file-system call of that kind is never given up, whatever path_timeout says"
+               if not has else f"AsyncPathIO.{op}: @with_timeout is not between the error converter and the executor hand-off ({names}): the TimeoutError escapes unconverted or bounds nothing",
+               construct=f"pathio:{op}:{'missing' if not has else 'order'}")
+    if n < 12:
+        ctx.floor_errors.append(f"rule=C16.PATHIO: {n} executor-backend operations (floor 12)")
+
+
+RULES = [rule_label, rule_wire, rule_wait, rule_end, rule_cleanup, rule_support, rule_pathio_timeout]
